@@ -757,8 +757,10 @@ def check_C08(tier):
         rep.case(r_["raw"], nontrivial=True)
     trace_validate(rep, "C08_fuzz", recs, "default")
     # size: very long inputs, deep nesting, huge numbers
-    big = [("long chain", "[C]" * (20000 if quick else 100000)),
-           ("long alive", "".join(gens.alive_selfies(rng, 10000 if quick else 50000))),
+    big = [("long chain", "[C]" * (20000 if quick else 40000)),
+           ("long alive", "".join(gens.alive_selfies(rng, 10000 if quick else 30000))),
+           ("100+ rings open at once", "".join(gens.many_open_rings(105))),
+           ("100+ rings open at once, second fragment", "[O]." + "".join(gens.many_open_rings(101))),
            ("nesting 300", "".join(gens.deep_branches(300))),
            ("many dots", "[C]." * 5000),
            ("brackets", "[" * 5000), ("closers", "]" * 5000 + "[C]"),
@@ -768,7 +770,7 @@ def check_C08(tier):
            ("nesting 1200", "".join(gens.deep_branches(1200))),
            ("nesting 6000", "".join(gens.deep_branches(6000)))]
     for what, s in big:
-        for msg, k in totality(s, budget=60.0):
+        for msg, k in totality(s, budget=200.0):
             f = [x for x in rep.findings if x.get("signature") == "decoder:nesting-deeper-than-recursion-limit"]
             if k == "RecursionError" and what.startswith("nesting") and f:
                 rep.known(f[0]["id"], f[0]["what"])
@@ -822,6 +824,25 @@ def check_C14(tier):
                 rep.violation("len_selfies(%r) = %d, %d tokens" % (raw, sf.len_selfies(raw), len(v["toks"])), {"input": raw})
     for v in wf[:: max(1, len(wf) // 3)][:3]:
         rep.sample({"text": v["raw"], "tokens": v["toks"]})
+    # the utilities stay consistent whatever was called before: pad a string through selfies_to_encoding
+    # (which tokenises it too), then tokenise the same string again
+    rng_h = random.Random(seed() + 141)
+    for v in (wf if len(wf) < 3000 else rng_h.sample(wf, 3000)):
+        raw = v["raw"]
+        if not v["toks"]:
+            continue
+        vocab = {t: i for i, t in enumerate(sorted(set(v["toks"]) | {"[nop]", "."}))}
+        try:
+            sf.selfies_to_encoding(raw, vocab, pad_to_len=len(v["toks"]) + 2, enc_type="label")
+            sf.batch_selfies_to_flat_hot([raw], vocab, len(v["toks"]) + 3)
+        except Exception:
+            pass
+        rep.traces += 1
+        got = list(sf.split_selfies(raw))
+        if got != v["toks"] or sf.len_selfies(raw) != len(v["toks"]) or \
+                sf.get_alphabet_from_selfies([raw]) != set(v["toks"]) - {"."}:
+            rep.violation("after selfies_to_encoding(%r, pad_to_len=...) the tokenisation of the same string changed: %r" % (raw, got),
+                          {"input": raw})
     # finite collections: alphabet = symbols occurring, without the dot
     rng = random.Random(seed() + 14)
     for _ in range(300 if quick else 3000):
